@@ -334,14 +334,8 @@ fn step(s: &St, name: &str) -> (St, Vec<String>, String) {
         }
         // a module that does not compile fails the same way every time it is imported
         "import_uncompilable_module" => (n, vec![], "Unhandled ImportError: Error compiling module:".into()),
-        "import_module_whose_body_throws" => {
-            if s.thrower_failed {
-                (n, vec![], "*".into())
-            } else {
-                n.thrower_failed = true;
-                (n, vec![], "Unhandled exception: module body".into())
-            }
-        }
+        // a module whose body throws is not loaded: every attempt runs the body and ends the same way
+        "import_module_whose_body_throws" => (n, vec![], "Unhandled exception: module body".into()),
         "probe_failed_imports" => (n, vec!["<class NameError>".to_string(); 3], ok),
         "reset" => (initial(), vec![], ok),
         _ => unreachable!(),
@@ -441,7 +435,7 @@ pub fn run(ctx: &Ctx) -> Report {
     expect::fill(
         &mut report,
         &stats,
-        "breadth-first search over histories of snippets fed to one interpreter, with canonical reference state (surviving globals, functions, classes, fiber objects, loaded modules); alphabet of 41 snippets: definitions and uses, a compile error, uncaught throws at top level / two calls deep / inside a fiber / inside try-finally / while a class is half-declared / from a built-in inside a method, clean try/finally, try/catch and class+loop probes, a fiber left suspended inside try/finally and resumed by a later snippet, probes of a fiber that died from an uncaught throw and of a chain of two such fibers (both must be finished), closures that escaped into globals from a call frame / a fiber discarded by an uncaught throw - the throwing one, and a fiber or a main-fiber frame that was waiting for it - and are called later (swept objects quarantined: any touch of freed memory is a violation), assignments to undefined globals that end the snippet (top level, in a call, in a fiber) and a `var` whose initialiser fails, with a probe that none of those names came into being, import and module mutation, a snippet that imports a module (at top level, inside a function), changes its state and then fails, imports that fail (a module that does not compile: the same ImportError every time; a module whose body throws: the thrown value the first time and again after a reset - what a further import without a reset yields is outside the property, it only must not panic) with a probe that they bound nothing, a probe of every one of the 30 built-in names, reset. Every transition is replayed as the shortest history reaching its source state plus the snippet, on a fresh real interpreter; each snippet's printed lines and outcome must equal the model's; no snippet may panic. Because that search merges histories by model state, a second family runs every history up to length 3 (4) over the whole alphabet without merging, so that every snippet - in particular every failing one, which leaves the model state unchanged - is followed by every other.",
+        "breadth-first search over histories of snippets fed to one interpreter, with canonical reference state (surviving globals, functions, classes, fiber objects, loaded modules); alphabet of 41 snippets: definitions and uses, a compile error, uncaught throws at top level / two calls deep / inside a fiber / inside try-finally / while a class is half-declared / from a built-in inside a method, clean try/finally, try/catch and class+loop probes, a fiber left suspended inside try/finally and resumed by a later snippet, probes of a fiber that died from an uncaught throw and of a chain of two such fibers (both must be finished), closures that escaped into globals from a call frame / a fiber discarded by an uncaught throw - the throwing one, and a fiber or a main-fiber frame that was waiting for it - and are called later (swept objects quarantined: any touch of freed memory is a violation), assignments to undefined globals that end the snippet (top level, in a call, in a fiber) and a `var` whose initialiser fails, with a probe that none of those names came into being, import and module mutation, a snippet that imports a module (at top level, inside a function), changes its state and then fails, imports that fail (a module that does not compile: the same ImportError every time; a module whose body throws: the thrown value at every attempt, the module is not loaded) with a probe that they bound nothing, a probe of every one of the 30 built-in names, reset. Every transition is replayed as the shortest history reaching its source state plus the snippet, on a fresh real interpreter; each snippet's printed lines and outcome must equal the model's; no snippet may panic. Because that search merges histories by model state, a second family runs every history up to length 3 (4) over the whole alphabet without merging, so that every snippet - in particular every failing one, which leaves the model state unchanged - is followed by every other.",
         json!({"history_length": depth, "snippets": SNIPPETS.len()}),
     );
     report.cov("states", json!(states));
